@@ -298,11 +298,11 @@ func SplitFrames(stream []byte) (frames []Frame, rest []byte, err error) {
 // ColDef is a protocol-4.1 column definition.
 type ColDef struct {
 	Catalog, Schema, Table, OrgTable, Name, OrgName string
-	Charset                                          uint16
-	Length                                           uint32
-	Type                                             byte
-	Flags                                            uint16
-	Decimals                                         byte
+	Charset                                         uint16
+	Length                                          uint32
+	Type                                            byte
+	Flags                                           uint16
+	Decimals                                        byte
 }
 
 // Encode renders the column definition payload.
